@@ -11,6 +11,7 @@ replace github.com/coreos/bbolt => go.etcd.io/bbolt v1.3.5
 require (
 	github.com/vicanso/elton v1.4.2
 	github.com/vicanso/pike v0.0.0-00010101000000-000000000000
+	github.com/vicanso/upstream v0.2.0
 )
 
 require (
@@ -55,7 +56,6 @@ require (
 	github.com/vicanso/hes v0.3.9 // indirect
 	github.com/vicanso/intranet-ip v0.0.1 // indirect
 	github.com/vicanso/keygrip v1.2.1 // indirect
-	github.com/vicanso/upstream v0.2.0 // indirect
 	github.com/xdg-go/pbkdf2 v1.0.0 // indirect
 	github.com/xdg-go/scram v1.0.2 // indirect
 	github.com/xdg-go/stringprep v1.0.2 // indirect
